@@ -268,9 +268,9 @@ theorem applyFn_bound (cfg f sp recv name vals st) :
     applyFn cfg (f + 1) sp (.bound recv name) vals st = callMember recv name vals sp st := by
   rw [applyFn]
 
-/-- Under the heap invariant `l.len` / `l.push` is the bound method. -/
+/-- Under the heap invariant `l.len`, `l.push`, `o.is_some`, … is the bound method. -/
 theorem memberVal_method (b : Val) (name : String) (sp : Span) (st : St) (hinv : HeapInv st.heap)
-    (hn : name = "len" ∨ name = "push") :
+    (hn : name ∈ methNames) :
     memberVal b name .dot sp st = (.ok (.bound b name), st) ∨
       ∃ w, memberVal b name .dot sp st = (.error (.unsupported w), st) := by
   rw [memberVal_dot]
@@ -282,24 +282,27 @@ theorem memberVal_method (b : Val) (name : String) (sp : Span) (st : St) (hinv :
     | some c =>
       cases c <;> try (left; rfl)
       rename_i fs
-      have := hinv a fs hc
-      rcases hn with rfl | rfl
-      · left; simp only [this.1]
-      · left; simp only [this.2]
+      left
+      simp only [hinv a fs hc name hn]
   case range x y i =>
     left
-    rcases hn with rfl | rfl <;> rfl
+    simp only [methNames, List.mem_cons, List.mem_nil_iff, or_false] at hn
+    rcases hn with rfl | rfl | rfl | rfl | rfl | rfl <;> rfl
 
-
-/-- **`l.len()`**, given the simulation of `l` (in the extended fragment: the heap invariant holds). -/
-theorem len_step (G : GCtx) (A : Act) (hA : A.OK G) (hfr : G.fr = true) (n : Nat)
+/-- **A builtin method without arguments** (`l.len()`, `o.is_some()`, …: a method that only reads the heap,
+never yields `null` and fails only as unsupported), given the simulation of the receiver. -/
+theorem meth0_step (G : GCtx) (A : Act) (hA : A.OK G) (hfr : G.fr = true) (n : Nat) (nm : String)
+    (hnm : nm ∈ methNames)
     (csp : Span) (cty : Ty) (msp : Span) (mty : Ty) (b : Expr)
+    (hHO : ∀ recv, HeapOnly (callMember recv nm [] csp))
+    (hnn : ∀ recv st v st', callMember recv nm [] csp st = (.ok v, st') → v ≠ .null)
+    (herr : ∀ recv st c st', callMember recv nm [] csp st = (.error c, st') → ∃ w, c = .unsupported w)
     (st : St) (ip : Nat) (stk : List SVal) (mem : Mem) (lm : LM) (scopes : CScopes)
-    (hpl : Placed A.lab A.σ A.c ip (cgE G.mod (ρS scopes) A.φ (.call csp cty (.member msp mty b "len" .dot) [] false) lm).1)
+    (hpl : Placed A.lab A.σ A.c ip (cgE G.mod (ρS scopes) A.φ (.call csp cty (.member msp mty b nm .dot) [] false) lm).1)
     (hsp : SpecOK G A.mp st)
     (hb : ∀ g, g + 3 = n → SimOE G A ip (nI (cgE G.mod (ρS scopes) A.φ b lm).1) stk mem st (evalExpr G.cfg g b st)) :
-    SimOE G A ip (nI (cgE G.mod (ρS scopes) A.φ (.call csp cty (.member msp mty b "len" .dot) [] false) lm).1) stk mem st
-      (evalExpr G.cfg n (.call csp cty (.member msp mty b "len" .dot) [] false) st) := by
+    SimOE G A ip (nI (cgE G.mod (ρS scopes) A.φ (.call csp cty (.member msp mty b nm .dot) [] false) lm).1) stk mem st
+      (evalExpr G.cfg n (.call csp cty (.member msp mty b nm .dot) [] false) st) := by
   match n, hb with
   | 0, _ => rw [evalExpr]; trivial
   | 1, _ => rw [evalExpr]; simp only [Bool.false_eq_true, if_false]; rw [evalCall]; trivial
@@ -309,10 +312,10 @@ theorem len_step (G : GCtx) (A : Act) (hA : A.OK G) (hfr : G.fr = true) (n : Nat
   simp only [cgE] at hpl ⊢
   generalize hCB : cgE G.mod (ρS scopes) A.φ b lm = CB at hpl hb ⊢
   obtain ⟨hpB, hplX⟩ := hpl.append
-  obtain ⟨imem, hX1⟩ := hplX.instr (i := .member "len") rfl
+  obtain ⟨imem, hX1⟩ := hplX.instr (i := .member nm) rfl
   obtain ⟨ipush, hX2⟩ := hX1.instr (i := .copyPush (.int 0)) rfl
   obtain ⟨icall, _⟩ := hX2.instr (i := .callVal) rfl
-  have hnX : nI [((Instr.member "len" : SInstr), msp), (.copyPush (.int 0), csp), (.callVal, csp)] = 3 := rfl
+  have hnX : nI [((Instr.member nm : SInstr), msp), (.copyPush (.int 0), csp), (.callVal, csp)] = 3 := rfl
   simp only [nI_append, hnX] at ⊢
   rw [evalExpr_call_eq, evalExpr_member]
   rcases heb : evalExpr G.cfg g b st with ⟨r1, st1⟩
@@ -324,58 +327,128 @@ theorem len_step (G : GCtx) (A : Act) (hA : A.OK G) (hfr : G.fr = true) (n : Nat
   simp only []
   have hsp1 := hsp.world st1 hfr1 hrun1.inv
   have hinv := hsp1.heap hfr
-  have hmr := member_runs G A hA msp (ip + nI CB.1) stk mem1 st1 bv "len" ob imem
-  rcases memberVal_method bv "len" msp st1 hinv (Or.inl rfl) with hm | ⟨w, hm⟩
+  have hmr := member_runs G A hA msp (ip + nI CB.1) stk mem1 st1 bv nm ob imem
+  rcases memberVal_method bv nm msp st1 hinv hnm with hm | ⟨w, hm⟩
   · rw [hm] at hmr ⊢
     simp only [] at hmr ⊢
     rw [List.map_nil, evalList_nil]
-    · simp only []
-      show SimOE G A ip _ stk mem st (applyFn G.cfg (g + 1) csp (.bound bv "len") [] st1)
-      rw [applyFn_bound]
-      have hpush := Runs.of_runsTo (fr := G.fr) (mem := mem1) (fun it_ => RunsTo.of_exec1 (fun k =>
-        reach_push G.code G.lim (baseOf (withIt G.s it_) A.fn A.rest A.mp st1.world) (ip + nI CB.1 + 1) k
-          (⟨.bound bv "len", memOrg st1.heap bv "len"⟩ :: stk) mem1 ⟨A.fn, 0⟩ A.rest A.c rfl hA.code (.int 0) csp
-          (.int (I64.ofInt 0)) ipush (fun _ => rfl)))
-      have hcm := callMember_len bv csp st1
-      have hcall : ∀ (nv : Val), callMember bv "len" [] csp st1 = (.ok nv, st1) → nv ≠ .null →
-          Runs G.fr G.code G.lim G.s A.fn A.rest A.mp (ip + nI CB.1 + 1 + 1)
-            (⟨.int (I64.ofInt 0), none⟩ :: ⟨.bound bv "len", memOrg st1.heap bv "len"⟩ :: stk) mem1 st1.world
-            (ip + nI CB.1 + 1 + 1 + 1) (⟨nv, none⟩ :: stk) mem1 st1.world := by
-        intro nv hnv hne
+    simp only []
+    show SimOE G A ip _ stk mem st (applyFn G.cfg (g + 1) csp (.bound bv nm) [] st1)
+    rw [applyFn_bound]
+    have hpush := Runs.of_runsTo (fr := G.fr) (mem := mem1) (fun it_ => RunsTo.of_exec1 (fun k =>
+      reach_push G.code G.lim (baseOf (withIt G.s it_) A.fn A.rest A.mp st1.world) (ip + nI CB.1 + 1) k
+        (⟨.bound bv nm, memOrg st1.heap bv nm⟩ :: stk) mem1 ⟨A.fn, 0⟩ A.rest A.c rfl hA.code (.int 0) csp
+        (.int (I64.ofInt 0)) ipush (fun _ => rfl)))
+    have hst := (hHO bv).state st1
+    rcases hr : callMember bv nm [] csp st1 with ⟨r, st2⟩
+    rw [hr] at hst
+    simp only at hst
+    subst hst
+    cases r with
+    | error c =>
+      obtain ⟨w, rfl⟩ := herr bv st2 c st2 hr
+      trivial
+    | ok nv =>
+      have hne := hnn bv st2 nv st2 hr
+      have hcall : Runs G.fr G.code G.lim G.s A.fn A.rest A.mp (ip + nI CB.1 + 1 + 1)
+          (⟨.int (I64.ofInt 0), none⟩ :: ⟨.bound bv nm, memOrg st2.heap bv nm⟩ :: stk) mem1 st2.world
+          (ip + nI CB.1 + 1 + 1 + 1) (⟨nv, none⟩ :: stk) mem1 st2.world := by
         refine Runs.of_exec1 (fr := G.fr) (mem := mem1) (fun it_ k => ?_)
-        refine mkS_callVal_len G.code G.lim (withIt G.s it_) A.fn _ A.rest A.mp k stk mem1.cells st1.world A.c hA.code csp bv
+        refine mkS_callVal_meth0 G.code G.lim (withIt G.s it_) A.fn _ A.rest A.mp k stk mem1.cells st2.world A.c hA.code csp nm bv
           none _ nv icall ?_ hne
-        have h2 := callMember_len bv csp { (withIt G.s it_).st with heap := st1.world.heap, out := st1.world.out }
-        rw [callMember_len] at hnv
-        rw [h2]
-        cases bv <;> try (simp only [] at hnv ⊢; first | (cases hnv; rfl) | cases hnv)
-        rename_i a
-        simp only [] at hnv ⊢
-        show (match st1.heap[a]? with
-          | some (Cell.list xs) => _
-          | some _ => _
-          | none => _) = _
-        cases hc : st1.heap[a]? with
-        | none => rw [hc] at hnv; cases hnv
-        | some c =>
-          rw [hc] at hnv
-          cases c <;> first | (cases hnv; rfl) | cases hnv
-      rw [hcm]
-      cases bv <;> try trivial
-      · rename_i s
-        simp only []
-        exact ⟨hfr1, mem1, none, (((hrun1.trans hmr).trans hpush).trans
-          (hcall _ (by rw [callMember_len]) (by intro h; cases h))).cast (by omega), hml1⟩
-      · rename_i a
-        simp only []
-        cases hc : st1.heap[a]? with
-        | none => trivial
-        | some c =>
-          cases c <;> try trivial
-          rename_i xs
-          simp only []
-          exact ⟨hfr1, mem1, none, (((hrun1.trans hmr).trans hpush).trans
-            (hcall _ (by rw [callMember_len]; simp only [hc]) (by intro h; cases h))).cast (by omega), hml1⟩
+        have h2 := hHO bv st2 { (withIt G.s it_).st with heap := st2.world.heap, out := st2.world.out } rfl
+        rw [h2, hr]
+      exact ⟨hfr1, mem1, none, (((hrun1.trans hmr).trans hpush).trans hcall).cast (by omega), hml1⟩
   · rw [hm]; trivial
+
+/-! ## The methods without arguments of the fragment: `len`, `is_some`, `is_none` -/
+
+theorem callMember_ref0 (nm : String) (hnm : nm = "is_some" ∨ nm = "is_none") (a : Nat) (sp : Span) (s : St) :
+    callMember (.ref a) nm [] sp s =
+      match s.heap[a]? with
+      | some _ => (.error (.unsupported s!"member {nm}"), s)
+      | none => (.error (.unsupported "dangling reference"), s) := by
+  rcases hnm with rfl | rfl
+  all_goals
+    show (readCell a >>= fun c => _) s = _
+    rw [M_bind, readCell_run]
+    cases s.heap[a]? with
+    | none => rfl
+    | some c => cases c <;> rfl
+
+/-- `is_some` / `is_none`: a boolean on an option, unsupported on anything else; the state is not touched. -/
+theorem callMember_opt0 (nm : String) (hnm : nm = "is_some" ∨ nm = "is_none") (recv : Val) (sp : Span) (st : St) :
+    (∃ o, recv = .opt o ∧ callMember recv nm [] sp st = (.ok (.bool (if nm = "is_some" then o.isSome else o.isNone)), st)) ∨
+      (∃ w, ∀ st' : St, st'.heap = st.heap → callMember recv nm [] sp st' = (.error (.unsupported w), st')) := by
+  cases recv
+  case opt o =>
+    left
+    rcases hnm with rfl | rfl
+    · exact ⟨o, rfl, rfl⟩
+    · exact ⟨o, rfl, rfl⟩
+  case ref a =>
+    right
+    cases hc : st.heap[a]? with
+    | none => exact ⟨_, fun st' h => by rw [callMember_ref0 nm hnm, h, hc]⟩
+    | some c => exact ⟨_, fun st' h => by rw [callMember_ref0 nm hnm, h, hc]⟩
+  all_goals
+    right
+    rcases hnm with rfl | rfl <;> exact ⟨_, fun _ _ => rfl⟩
+
+theorem callMember_opt0_heapOnly (nm : String) (hnm : nm = "is_some" ∨ nm = "is_none") (recv : Val) (sp : Span) :
+    HeapOnly (callMember recv nm [] sp) := by
+  intro st st' hh
+  rcases callMember_opt0 nm hnm recv sp st with ⟨o, rfl, h⟩ | ⟨w, h⟩
+  · rcases hnm with rfl | rfl <;> rfl
+  · rw [h st' hh, h st rfl]
+
+theorem callMember_len_heapOnly (recv : Val) (sp : Span) : HeapOnly (callMember recv "len" [] sp) := by
+  intro st st' hh
+  rw [callMember_len, callMember_len, hh]
+  cases recv <;> try rfl
+  rename_i a
+  simp only []
+  cases st.heap[a]? with
+  | none => rfl
+  | some c => cases c <;> rfl
+
+/-- The three facts `meth0_step` asks of a method, for the methods of `meth0`. -/
+theorem callMember_meth0 (nm : String) (hnm : nm ∈ meth0) (sp : Span) :
+    (∀ recv, HeapOnly (callMember recv nm [] sp)) ∧
+    (∀ recv st v st', callMember recv nm [] sp st = (.ok v, st') → v ≠ .null) ∧
+    (∀ recv st c st', callMember recv nm [] sp st = (.error c, st') → ∃ w, c = .unsupported w) := by
+  simp only [meth0, List.mem_cons, List.mem_nil_iff, or_false] at hnm
+  rcases hnm with rfl | hnm
+  · refine ⟨fun recv => callMember_len_heapOnly recv sp, ?_, ?_⟩
+    · intro recv st v st' h
+      rw [callMember_len] at h
+      cases recv <;> simp only [] at h <;> try (cases h; done)
+      · cases h; intro h'; cases h'
+      · rename_i a
+        cases hc : st.heap[a]? with
+        | none => rw [hc] at h; cases h
+        | some c =>
+          rw [hc] at h
+          cases c <;> first | (cases h; intro h'; cases h') | cases h
+    · intro recv st c st' h
+      rw [callMember_len] at h
+      cases recv <;> simp only [] at h <;> try (first | (cases h; done) | (cases h; exact ⟨_, rfl⟩))
+      rename_i a
+      cases hc : st.heap[a]? with
+      | none => rw [hc] at h; cases h; exact ⟨_, rfl⟩
+      | some cl =>
+        rw [hc] at h
+        cases cl <;> first | (cases h; exact ⟨_, rfl⟩) | cases h
+  · refine ⟨fun recv => callMember_opt0_heapOnly nm hnm recv sp, ?_, ?_⟩
+    · intro recv st v st' h
+      rcases callMember_opt0 nm hnm recv sp st with ⟨o, _, h'⟩ | ⟨w, h'⟩
+      · rw [h'] at h; cases h; intro hx; cases hx
+      · rw [h' st rfl] at h; cases h
+    · intro recv st c st' h
+      rcases callMember_opt0 nm hnm recv sp st with ⟨o, _, h'⟩ | ⟨w, h'⟩
+      · rw [h'] at h; cases h
+      · rw [h' st rfl] at h; cases h; exact ⟨_, rfl⟩
+
+theorem meth0_sub : ∀ nm ∈ meth0, nm ∈ methNames := by decide
 
 end HmsProofs.Sim
